@@ -95,3 +95,31 @@ theorem unpad_pad (d : Bytes) : unpadAes (pkcs7Pad d) = d := by
   simp; omega
 
 end PdfVerif.Crypt
+
+namespace PdfVerif.Crypt
+open PdfVerif PdfVerif.Gen.Crypt PdfVerif.CryptWriter
+
+/-! ### P as four little-endian bytes -/
+
+theorem leBytes4_mod (n : Nat) : leBytes 4 n = leBytes 4 (n % 4294967296) := by
+  simp only [leBytes]
+  have h1 : n % 256 = n % 4294967296 % 256 := by omega
+  have h2 : n / 256 % 256 = n % 4294967296 / 256 % 256 := by omega
+  have h3 : n / 256 / 256 % 256 = n % 4294967296 / 256 / 256 % 256 := by omega
+  have h4 : n / 256 / 256 / 256 % 256 = n % 4294967296 / 256 / 256 / 256 % 256 := by omega
+  rw [h1, h2, h3, h4]
+
+/-- the reader's `struct.pack("<L", uint_value(P, 32))` is the writer's two's-complement P. -/
+theorem pBytes_eq (p : Int) (hp : -4294967296 ≤ p) : leBytes 4 (uintValue32 p) = pBytes p := by
+  unfold pBytes uintValue32
+  rw [leBytes4_mod]
+  congr 1
+  split <;> omega
+
+/-! ### the reader's key derivation is Algorithm 2 -/
+
+theorem keyBytes_eq (c : Cfg) (hr : c.r = 2 ∨ c.r = 3 ∨ c.r = 4) : keyBytes c.r c.length = keyLen c := by
+  unfold keyBytes keyLen BITS_PER_KEY_BYTE KEY_BYTES_R2
+  rcases hr with h | h | h <;> simp [h]
+
+end PdfVerif.Crypt
